@@ -62,7 +62,7 @@ def h_thumbprint(ctx):
     how = ctx.choose("origin", origins)
     private = ctx.choose("private", [True] if kty == "oct" else [True, False])
     extras = ctx.choose("optional_members", [None, {"kid": "my-kid", "use": "sig", "alg": "X"}, {"key_ops": ["sign", "verify"], "x5t": "abc"}])
-    order = ctx.choose("member_order", ["given", "reversed"] if how == "dict" else ["given"])
+    order = ctx.choose("member_order", ["given", "reversed", "given, string members as str subclasses"] if how == "dict" else ["given"])
     digest = ctx.choose("digest", ["sha256", "sha384", "sha512"])
     pub = rjwk.public_of(jwk)
     want = rjwk.thumbprint(pub, digest)
@@ -72,6 +72,10 @@ def h_thumbprint(ctx):
             src.update(copy.deepcopy(extras))
         if order == "reversed":
             src = dict(reversed(list(src.items())))
+        elif order != "given":
+            # applications hold curve names in string enums, secrets in wrappers that hide them from logs: str subclasses whose str() is not
+            # their content.  A JWK member IS its content.
+            src = {m: (_Labelled(v) if isinstance(v, str) and m != "kty" else v) for m, v in src.items()}
         params = None
     else:
         params = copy.deepcopy(extras)
@@ -112,6 +116,18 @@ def h_thumbprint(ctx):
         vs.append(viol(f"thumbprint differs from RFC 7638 value: {cls} via {how}{lz}",
                        f"{label} private={private} digest={digest} extras={extras}: got {tp.value}, RFC 7638 gives {want}"))
     return Outcome(f"{'match' if not vs else 'mismatch'}:{cls}:{how}", vs, nontrivial=(label, how, private))
+
+
+class _Labelled(str):
+    """A str whose str() and repr() are not its content (like `class Curve(str, Enum)` members, or a secret wrapper)."""
+
+    def __str__(self):
+        return "Labelled.VALUE"
+
+    def __repr__(self):
+        return "<hidden>"
+
+    __hash__ = str.__hash__
 
 
 # ------------------------------------------------------------------ E2: kid histories
@@ -256,8 +272,10 @@ class KidModel:
             out["k2_want"] = pk if pk is not None else rjwk.thumbprint(rjwk.public_of(other))
         elif op == "check_use":
             key.check_use("sig")
-        out["kid_after"] = key.kid if op != "kid" else out["kid"]
-        out["tp_after"] = key.thumbprint()
+        ka = call(lambda: key.kid)
+        out["kid_after"] = (ka.value if ka.ok else f"<raises {ka.etype}>") if op != "kid" else out["kid"]
+        ta = call(key.thumbprint)
+        out["tp_after"] = ta.value if ta.ok else f"<raises {ta.etype}>"
         st["kids_seen"].append(out["kid_after"])
         return out
 
